@@ -28,7 +28,7 @@ MODULE = 'PymtlVerif.Props.C16'
 THEOREMS = ['PV.C16.' + t for t in [
   'replay_dump', 'replay_dump_zero_init', 'replay_signal', 'shared_symbol',
   'clock_edges', 'clock_once_per_cycle',
-  'vcd_str_parses', 'vcd_str_injective', 'vcd_str_length', 'symbol_injective',
+  'vcd_str_parses', 'vcd_str_injective', 'vcd_str_length', 'symbol_injective', 'textwave_record',
   'quirk_needs_equal_defaults']]
 TRUSTED = [
   'Model/VCD.lean follows VcdGenerationPass.make_vcd_func/dump_vcd_inner: net table, symbol generator, header values, '
@@ -115,7 +115,7 @@ def close_vcd(top):
       elif hasattr(o, 'close') and hasattr(o, 'name') and str(getattr(o, 'name', '')).endswith('.vcd'):
         o.close()
 
-def simulate(ck, case, patch=None):
+def simulate(ck, case):
   """build the design of `case`, simulate it, return a Run with samples and the file text"""
   from pymtl3.passes.PassGroups import DefaultPassGroup
   from pymtl3.passes.backends.verilog import VerilogTBGenPass
@@ -140,7 +140,6 @@ def simulate(ck, case, patch=None):
     hook_samples = []
     top.set_metadata(VerilogTBGenPass.vtbgen_hooks, [lambda: hook_samples.append(read_all())])
     vcd_base = os.path.join(ck.workdir, f'wave_{os.getpid()}_{case["dseed"]}')
-    if patch: patch()
     top.apply(DefaultPassGroup(vcdwave=vcd_base, textwave=True))
     r.top = top
     r.after_apply = read_all()
@@ -182,11 +181,13 @@ def simulate(ck, case, patch=None):
     os.remove(vcd_base + '.vcd')
     # DSL value nets, trimmed to top-level signals (what lock_in_simulation merges into one object)
     from pymtl3.dsl import Const
-    groups = []
+    groups, const_driven = [], set()
     for writer, net in top.get_all_value_nets():
       g = sorted(repr(x) for x in net if not isinstance(x, Const) and x.is_top_level_signal())
       if g: groups.append(g)
+      if isinstance(writer, Const): const_driven.update(g)
     r.dsl_groups = groups
+    r.const_driven = const_driven
     return r
   finally:
     sys.modules.pop(modname, None)
@@ -265,6 +266,16 @@ def check_design(ck, case, r, lines_out):
   all_syms = {d[1] for d in dmap.values()}
   if set(hsyms) != all_syms or len(set(hsyms)) != len(hsyms):
     viol('header-values', {'declared': sorted(all_syms), 'header': hsyms})
+  # the header values are the values the signals hold once the simulator is built, except on nets driven by a
+  # constant (lock_in_simulation installs the constant object at once; the file catches up in the #0 block)
+  hval = {s_: VP.value_of(v) for _, s_, v in header}
+  for i, ((path, e, td), d) in enumerate(zip(sigs, sig_decl)):
+    if hval.get(d[1]) != r.after_apply[i]:
+      full = 's' + ''.join('.' + p for p in path) + '.' + e
+      if full in r.const_driven: ck.hist('header_value', 'differs on a constant-driven net (expected)')
+      else:
+        ck.disagreement('header value == value held after apply', case, hval.get(d[1]), {'signal': full, 'held': r.after_apply[i]})
+        break
   # ---- the property: replay == samples
   rep = py_replay(events, N)
   bad = None
@@ -287,12 +298,13 @@ def check_design(ck, case, r, lines_out):
     viol('clock-lines', {'got': clk_lines[:12], 'want': want_clk[:12], 'ncycles': N})
   # ---- text wave
   tw = r.textwave
-  want_tw = {}
+  want_tw, tw_index = {}, {}
   for i, (path, e, td) in enumerate(sigs):
     full = 's' + ''.join('.' + p for p in path) + '.' + e
     if e in ('clk', 'reset') and full != 's.reset': continue
     w = G.nbits(td)
     want_tw[full] = ['0b' + format(samples[t][i], f'0{w}b') for t in range(N)]
+    tw_index[full] = i
   if set(tw) != set(want_tw):
     viol('textwave-keys', {'missing': sorted(set(want_tw) - set(tw))[:5], 'extra': sorted(set(tw) - set(want_tw))[:5]})
   else:
@@ -325,6 +337,14 @@ def check_design(ck, case, r, lines_out):
     leanio.line('vcd', 'decls', widths, clk, sig_net),
     leanio.line('vcd', 'edges', sym_codes(clk_sym), events_sexp(events)),
   ]
+  # text-wave records of a few signals through the model (widest, a one-bit one, and the first few)
+  keys = sorted(want_tw, key=lambda k: (-len(want_tw[k][0]) if want_tw[k] else 0, k))[:2] + sorted(want_tw)[:4] if N else []
+  tw_keys = []
+  for k in keys:
+    if k in tw_keys or k not in tw: continue
+    i = tw_index[k]
+    tw_keys.append(k)
+    reqs.append(leanio.line('vcd', 'wav', G.nbits(sigs[i][2]), [samples[t][i] for t in range(N)]))
   # statistics
   changing = sum(1 for col in zip(*trace) if len(set(col[1:])) > 1) if N > 1 and trace and trace[0] else 0
   constant = sum(1 for col in zip(*trace) if len(set(col)) == 1) if trace and trace[0] else 0
@@ -336,14 +356,18 @@ def check_design(ck, case, r, lines_out):
       seen.add(v); prev = v
   shared = len(sig_decl) - len(set(d[1] for d in sig_decl))
   ctx = {'vcd': vcd, 'sig_decl': sig_decl, 'is_clock': is_clock, 'samples': samples, 'N': N, 'clk_sym': clk_sym,
-         'want_clk': want_clk, 'rep': rep, 'extra': extra, 'widths': widths, 'net_syms': net_syms,
+         'want_clk': want_clk, 'rep': rep, 'tw_keys': tw_keys, 'extra': extra, 'widths': widths, 'net_syms': net_syms,
          'stats': (changing, constant, revisit, shared)}
   lines_out.append((case, r, reqs, ctx))
   return ctx
 
 def compare_model(ck, case, r, replies, ctx):
   vcd, sig_decl, N = ctx['vcd'], ctx['sig_decl'], ctx['N']
-  dump_line, replay_line, decls_line, edges_line = replies
+  dump_line, replay_line, decls_line, edges_line = replies[:4]
+  for k, line in zip(ctx['tw_keys'], replies[4:]):
+    mrec = leanio.parse_sexp(line)[0]
+    if mrec != r.textwave[k]:
+      ck.disagreement('Model/VCD.wavRecord == textwave_dict', case, {'signal': k, 'model': mrec[:4]}, r.textwave[k][:4])
   # (1) the model's dump of the sampled trace == the file's value-change section, token for token
   mtoks = dump_line.split()
   if mtoks != vcd['body']:
@@ -458,8 +482,8 @@ def flush(ck, pending):
 
 def run(ck):
   rng = ck.rng
-  total = 150 if ck.tier == 'quick' else 4000
-  budget = 45 if ck.tier == 'quick' else 520
+  total = 500 if ck.tier == 'quick' else 12000
+  budget = 45 if ck.tier == 'quick' else 480
   pending = []
   done = 0
   for idx in range(total):
